@@ -109,10 +109,26 @@ def trace_handlers():
     return {"test.op": h_test}
 
 
-def run_nest(module, K, args):
+def run_nest(module, K, args, emitted=False):
     I = irsym.Interp(K=K, intmode=True, shared={})
     I.handlers.update(trace_handlers())
     I.handlers.update(MEMREF_HANDLERS)
+    if emitted:
+        # index arithmetic the pass emitted: an unsigned division that is reached with a divisor <= 0 (or a negative
+        # dividend) is wrong by itself - it is reported, not assumed away
+        def strict(f):
+            def h(I, op):
+                a, b = I.vals(op)
+                a, b = (v if z3.is_expr(v) else sym.zint(v) for v in (a, b))
+                # (obligations are discharged against the final path condition: fork instead of assuming afterwards)
+                if eng().branch(z3.And(a >= 0, b > 0)):
+                    I.set(op.results[0], f(a, b))
+                else:
+                    eng().oblige("emitted:unsigned_division_reached_with_operands_in_range", False, dict(op=op.name))
+                    I.set(op.results[0], z3.FreshInt("undefined_division"))
+            return h
+        I.handlers["arith.divui"] = strict(lambda a, b: a / b)
+        I.handlers["arith.remui"] = strict(lambda a, b: a % b)
     f = irsym.module_funcs(module)[0]
     I.run_func(f, args)
     return I
@@ -129,7 +145,8 @@ def case_nest(case, K=6):
     for (lb, ub, st) in loops:
         if isinstance(ub, tuple):
             s = st if isinstance(st, int) else 2
-            hole_ranges[ub[1]] = (0, 2 * s + (s - 1)) if len(loops) > 1 else (0, 3 * s + (s - 1))
+            # negative upper bounds included: a loop "0 to -3" runs zero times like "0 to 0"
+            hole_ranges[ub[1]] = (-3, 2 * s + (s - 1)) if len(loops) > 1 else (-3, 3 * s + (s - 1))
 
     def apply_pass(ctx, m, without=()):
         from xdsl.pattern_rewriter import GreedyRewritePatternApplier, PatternRewriteWalker
@@ -159,7 +176,7 @@ def case_nest(case, K=6):
             E.assume(z3.And(n >= 0, n <= 4, m >= 0, m <= 5, s >= 1, s <= 3))
             I1 = run_nest(m1, K * 4, [n, m, s])
             try:
-                I2 = run_nest(m2, K * 4, [n, m, s])
+                I2 = run_nest(m2, K * 4, [n, m, s], emitted=True)
             except irsym.Undefined as e:
                 E.oblige("ssa:use_before_def", False, dict(error=str(e)[:200]))
                 return
@@ -386,7 +403,7 @@ def run(chk):
         "of effectful ops with their evaluated index/size operands is identical on every path (all trip counts "
         "within the hole ranges). Allocation events are compared through the sizes of the buffers that reach "
         "users, not by count.")
-    chk.assumptions = ["hole ranges: ub in [0, 3*step+step-1] (single loop) / [0, 2*step+step-1] (nests): every trip count 0..3 / 0..2 incl. non-multiples",
+    chk.assumptions = ["hole ranges: ub in [-3, 3*step+step-1] (single loop) / [-3, 2*step+step-1] (nests): every trip count 0..3 / 0..2 incl. non-multiples",
                        "dynamic bounds n in 0..4, m in 0..5, s in 1..3; source memref sizes 8..64",
                        "index arithmetic without overflow (int mode)"]
     # part A
@@ -405,6 +422,9 @@ def run(chk):
     for lb0, lb1 in (("n", 0), (0, "n"), (0, 2)):
         cases.append(([(lb0, ("hole", 0), 1), (lb1, ("hole", 1), 2)], [(False, False), (True, False)]))
     cases.append(([(0, "m", 1), (0, ("hole", 1), 1)], [(False, False), (True, False)]))
+    # literal negative upper bounds (zero trips), in one or both loops of a nest
+    for u0, u1 in ((-2, -3), (-1, -1), (-2, 2), (2, -1), (-1, 0)):
+        cases.append(([(0, u0, 1), (0, u1, 1)], [(False, False), (True, False)]))
     # depth 3
     for sts in ((1, 1, 1), (2, 1, 1), (1, 2, 1), (1, 1, 3), (2, 2, 2)):
         for b in ((False, False), (True, False), (False, True)):
